@@ -3,6 +3,7 @@ package vc
 import (
 	"fmt"
 	"go/types"
+	"strings"
 )
 
 // Val is the symbolic value of an SSA value or contract expression.
@@ -122,7 +123,13 @@ func (fc *fnCtx) setH(st *State, name, term string) {
 
 // havocAll forgets everything about the heap.
 func (fc *fnCtx) havocAll(st *State) {
-	st.heap = map[string]string{}
+	keep := map[string]string{}
+	for k, v := range st.heap {
+		if strings.HasPrefix(k, "|ghost!") || strings.HasPrefix(k, "ghost!") {
+			keep[k] = v // function-local ghost flags are not memory
+		}
+	}
+	st.heap = keep
 	fc.epoch++
 	st.base = fmt.Sprint(fc.epoch)
 	fc.verCounter++
